@@ -148,6 +148,12 @@ impl TryFrom<&str> for OnionV3Address {
 			}
 		};
 
+		// a padded final block decodes to fewer bytes than a key
+		if address.len() < 32 {
+			return Err(OnionV3Error::AddressDecoding(
+				"(Interpreted as Base32 String) Input address is wrong length".to_owned(),
+			));
+		}
 		let mut retval = OnionV3Address([0; 32]);
 		retval.0.copy_from_slice(&address[0..32]);
 
